@@ -1104,6 +1104,7 @@ class Context:
             if ctx._eval_depth >= ctx.MAX_EVAL_DEPTH:
                 raise MemoryLimitError("Maximum eval nesting depth exceeded")
             ctx._eval_depth += 1
+            calling_vm = ctx._current_vm
             try:
                 parser = Parser(code)
                 ast = parser.parse()
@@ -1118,6 +1119,9 @@ class Context:
                 # Nested code runs against the deadline of the outer eval
                 if ctx._current_vm is not None:
                     vm.start_time = ctx._current_vm.start_time
+                # Built-ins called by the evaluated code run their callbacks
+                # (and find their handlers) in this evaluation
+                ctx._current_vm = vm
                 return vm.run(bytecode_module)
             except (JSError, _ThrowSignal):
                 # Script exceptions and syntax errors reach the calling code
@@ -1127,6 +1131,7 @@ class Context:
                 raise JSError(f"EvalError: {str(e)}")
             finally:
                 ctx._eval_depth -= 1
+                ctx._current_vm = calling_vm
 
         return eval_fn
 
